@@ -123,6 +123,9 @@ pub struct Live {
     /// request as seen by the server application (server role) — authority, path, headers
     pub request: Option<(String, String, HashMap<String, String>)>,
     pub sut: Sut,
+    /// send halves of the streams the raw peer opened in the same flight as the request
+    /// (`Script::early`), in that order
+    pub early: Vec<quinn::SendStream>,
 }
 
 #[derive(Clone)]
@@ -143,6 +146,11 @@ pub struct Script {
     /// server role only: client bidi streams opened (and finished) before the CONNECT stream, so
     /// that the session id becomes 4 * burn
     pub burn: usize,
+    /// server role: streams (bidi?, first bytes) the raw peer opens right behind the CONNECT
+    /// request, i.e. before the application under test has accepted the session
+    pub early: Vec<(bool, Vec<u8>)>,
+    /// server role: how long the application waits between receiving the request and accepting it
+    pub accept_delay: Duration,
 }
 
 impl Script {
@@ -165,6 +173,8 @@ impl Script {
             sut_transport: None,
             authority: "localhost".into(),
             path: "/scen".into(),
+            early: vec![],
+            accept_delay: Duration::ZERO,
             // server role: the session is not always on the first request stream — every few
             // scripts it sits on stream 4, 8 or 20, where session id and quarter stream id differ
             burn: match role {
@@ -248,11 +258,24 @@ pub async fn establish(role: Role, script: &Script, limit: Duration) -> Result<L
                 let (mut s, r) = peer.open_bi(&[]).await?;
                 let sid = raw::stream_index(s.id());
                 write_cut(&peer, &mut s, &script.headers, &script.headers_cuts, script.headers_event, sid, script.pause).await?;
-                Ok::<_, String>((raw_ep, peer, s, r, sid))
+                let mut early = vec![];
+                for (bidi, bytes) in &script.early {
+                    if *bidi {
+                        let (es, er) = peer.open_bi(bytes).await?;
+                        peer.keep_r(er);
+                        early.push(es);
+                    } else {
+                        early.push(peer.open_uni(bytes).await?);
+                    }
+                }
+                Ok::<_, String>((raw_ep, peer, s, r, sid, early))
             };
             let sut_side = async {
                 let req = ends::accept_request(&server).await?;
                 let info = (req.authority().to_string(), req.path().to_string(), req.headers().clone());
+                if !script.accept_delay.is_zero() {
+                    tokio::time::sleep(script.accept_delay).await;
+                }
                 let conn = req.accept().await.map_err(|e| format!("accept: {e}"))?;
                 Ok::<_, String>((conn, info))
             };
@@ -261,7 +284,7 @@ pub async fn establish(role: Role, script: &Script, limit: Duration) -> Result<L
                 Ok(x) => x,
                 Err(starved) => return Err(EstErr::Harness(starved)),
             };
-            let (raw_ep, peer, s, mut r, sid) = match raw_res {
+            let (raw_ep, peer, s, mut r, sid, early) = match raw_res {
                 Waited::Done(Ok(x)) => x,
                 Waited::Done(Err(e)) => {
                     // the raw side fails to write when the endpoint already closed the connection
@@ -279,7 +302,7 @@ pub async fn establish(role: Role, script: &Script, limit: Duration) -> Result<L
             };
             // read the 200 response so the stream is in a steady state
             let _ = raw::read_response(&mut r, Duration::from_secs(5)).await;
-            Ok(Live { role, conn, peer, sess_send: Some(s), sess_recv: Some(r), sid, request: Some(info), sut: Sut { server: Some(server), client: None, raw_ep } })
+            Ok(Live { role, conn, peer, sess_send: Some(s), sess_recv: Some(r), sid, request: Some(info), sut: Sut { server: Some(server), client: None, raw_ep }, early })
         }
         Role::Client => {
             let raw_ep = ends::raw_server_endpoint(&[b"h3"], rt);
@@ -328,7 +351,7 @@ pub async fn establish(role: Role, script: &Script, limit: Duration) -> Result<L
                 Waited::Done(Err(e)) => return Err(EstErr::Harness(e)),
                 Waited::TimedOut => return Err(EstErr::Harness("raw side timed out".into())),
             };
-            Ok(Live { role, conn, peer, sess_send: Some(s), sess_recv: None, sid, request: None, sut: Sut { server: None, client: Some(client), raw_ep } })
+            Ok(Live { role, conn, peer, sess_send: Some(s), sess_recv: None, sid, request: None, sut: Sut { server: None, client: Some(client), raw_ep }, early: vec![] })
         }
     }
 }
